@@ -20,6 +20,8 @@
    real code). *)
 From Tx Require Import Lib.Base Gen.Generated Model.Router Spec.MatchSpec.
 From Tx Require Import Proofs.RouterProofs Proofs.RuleTextProofs.
+From Tx Require Import Spec.DaemonSpec Model.ClientMatch Proofs.ClientMatchProofs.
+From Coq Require Import Permutation.
 Local Open Scope N_scope.
 
 (* For every rule and EVERY message (signals in particular) the router's
@@ -142,6 +144,53 @@ Theorem C12_proxy_subscription :
        && field_is path (m_path m)
     then gate declared m else None.
 Proof. exact proxy_subscription. Qed.
+
+(* The client against the reference daemon (Spec/DaemonSpec.v: a MULTISET of
+   rule texts per connection; AddMatch adds one instance, RemoveMatch removes
+   one instance or answers MatchRuleNotFound; a broadcast signal is forwarded
+   iff a held rule is satisfied).  `crun h` is (client, daemon) after the
+   history h of conn.addMatch / conn.delMatch calls and signals on the bus,
+   each AddMatch / RemoveMatch call being answered by the daemon before the
+   next event; `map revent h` is the same history as the router sees it.
+   Hypotheses (those of C12_rule_string): every rule has a constraint and no
+   value contains ',' or '='; callbacks do not call back into the router.
+
+   For ALL such histories the daemon holds, with multiplicity, exactly the
+   texts of the client's live rules; the client's table is the router's. *)
+Theorem C12_client_daemon_agree :
+  forall h, good_history h ->
+    Permutation (snd (crun h)) (map snd (cl_texts (fst (crun h)))) /\
+    cl_texts (fst (crun h)) = texts_of (live (map revent h)) /\
+    cl_router (fst (crun h)) = run (map revent h).
+Proof. exact client_daemon_agree_perm. Qed.
+
+(* Hence, end to end: a signal emitted after the history is forwarded by the
+   daemon and reaches exactly one callback per live rule it satisfies; when
+   no live rule is satisfied nothing is called. *)
+Theorem C12_client_signal_served :
+  forall h m, good_history h -> csignal_called h m = expected (map revent h) m.
+Proof. exact client_signal_served. Qed.
+
+(* delMatch of a live rule sends RemoveMatch with the text the rule was
+   added with, and the daemon never refuses it. *)
+Theorem C12_client_remove_never_refused :
+  forall h i r k, good_history h -> In (i, r, k) (live (map revent h)) ->
+    snd (cstep (crun h) (CDel i)) = OCDeleted [WRemove (rule_string r)] (Ok tt).
+Proof. exact client_remove_live_ok. Qed.
+
+(* non-vacuity: the same rule text registered twice, one of them removed:
+   the daemon still holds one instance and the other callback is served *)
+Example C12_client_nonvacuous :
+  good_history w_dup /\
+  ctrace w_dup =
+    [ OCAdded [WAdd w_rule_text] (Ok 0%nat); OCAdded [WAdd w_rule_text] (Ok 1%nat);
+      OCDeleted [WRemove w_rule_text] (Ok tt);
+      OCSignal true [(1%nat, 2)];
+      OCDeleted [] (Err EKey); OCDeleted [WRemove w_rule_text] (Ok tt);
+      OCSignal false [] ] /\
+  snd (crun (firstn 3 w_dup)) = [w_rule_text] /\
+  snd (crun w_dup) = [].
+Proof. exact w_dup_ok. Qed.
 
 (* The matcher of the pinned commit did not satisfy C12_match_iff: one
    witness per defect (D16 type ignored, D17 namespace sibling, D18 no body,
